@@ -171,6 +171,18 @@ CHECKS["C20"] = dict(
     design="§7 C20",
 )
 
+CHECKS["C16"] = dict(
+    text=("Lean (exact rational arithmetic): var_identity - the one-pass formula (Sum x^2 - (Sum x)^2/n)/(n-ddof) the library evaluates equals the two-pass sample "
+          "variance Sum(x-mean)^2/(n-ddof) for every list and ddof (via Sum(x-m)^2 = Sum x^2 - 2m Sum x + n m^2); the null rule n <= ddof; apply: the "
+          "group-sorted indexer hands each label exactly its rows in ascending row order (counting-sort theorems of C02); density shares add up to 100 "
+          "whenever the total is non-zero. Correspondence: var/std vs two-pass Fraction arithmetic (exact on integers; on floats with offsets up to 1e8 "
+          "within 16*n*eps*max|x|^2), median/quantile vs NumPy on each group's selected values, apply with scalar / fixed-length / input-aligned user "
+          "functions, agg lists vs individual calls, ratio, subset_ratio, density with/without margins; masks, null keys, unused categories, 1-2 value columns."),
+    note="PARTIAL: the floating-point rounding bound of the one-pass variance is only tested against the stated allowance, not proved; NumPy's quantile interpolation is the reference (assumed). Mathlib single modules imported by this proof file only.",
+    technique="Lean 4 proof over Rat (algebraic identities by induction + field_simp/ring) + differential correspondence against exact rational / NumPy oracles",
+    design="§7 C16",
+)
+
 NOT_APPLICABLE: list[dict] = []
 
 
